@@ -38,6 +38,7 @@ class BuildResult:
         self.tags = {}          # tag -> generated line
         self.trusted = []       # (kind, generated line, text)
         self.fn_spans = []      # (gen_line0, gen_line1, qualified name) for extracted fns
+        self.unaccounted = []   # `count` directives that do not match: places the unit does not account for (no HELD then)
         self.lost = []          # soft-lost anchors (hint/loop/sub that no longer matches); proof may still go through
 
 
@@ -192,7 +193,7 @@ def build(template_path, repo, variant="strict", inline=None):
                 pt = [t.text for t in lex(pat_) if t.kind not in ("ws", "lcomment", "bcomment")]
                 got = sum(1 for q in range(len(hcode) - len(pt) + 1) if hcode[q:q + len(pt)] == pt)
                 if got != want_:
-                    res.lost.append("%s %s: `%s` occurs %d times, the unit accounts for %d" % (relfile, sel_, pat_, got, want_))
+                    res.unaccounted.append("%s %s: `%s` occurs %d times, the unit accounts for %d" % (relfile, sel_, pat_, got, want_))
                 else:
                     out.append(("// count: `%s` occurs %d times in %s %s (all accounted for)" % (pat_, got, relfile, sel_), ("gen", None, 0)))
             except LostAnchor as e:
